@@ -128,8 +128,16 @@ def clipIndex (count : Nat) (m : PositionMatch) : Option Nat → Option Nat
     else some i
   | none => none
 
+/-- 2^64: a position at or beyond it (or NaN) has no representable index of its own — converting it would be undefined (fix 30460cb) -/
+def indexLimit : Nat := 18446744073709551616
+
+/-- the two kernels as repaired: below zero without a Greater rule → none (as `rawCountIndex` starts); a position that is not below
+    2^64 (NaN included) → the last index for Less / LessOrEqual on a bounded dimension, else none; otherwise the raw index, clipped -/
 def getCountIndex (p : α) (count : Nat) (m : PositionMatch) : Option Nat :=
-  clipIndex count m (rawCountIndex p m)
+  if p < zero && !m.isGreater then none
+  else if !(decide (p < ofNat indexLimit)) then
+    (if beq p p && decide (0 < count) && m.isLess then some (count - 1) else none)
+  else clipIndex count m (rawCountIndex p m)
 
 /-! ### start/end pairs -/
 
